@@ -8,6 +8,7 @@ CONSTANTS
   Coords = {"A"}
   OpKinds = {"CreateStream", "DeleteStream", "CreateGroup", "JoinGroup", "LeaveGroup"}
   Variants = {"custom"}
+  Extras = {}
   MaxOps = 4
   MaxSnaps = 1
   MaxRestarts = 1
